@@ -29,6 +29,32 @@ def _case(draw):
     prof = S.profile(rich_comments=draw(st.integers(0, 3)) == 0, p_subpackage=0.4, p_foreign_io=0.3, p_paged=0.25)
     api = draw(S.apis(prof))
     opts = draw(S.option_sets())
+    extra = draw(st.integers(0, 9))
+    if extra == 0:
+        nm = draw(st.sampled_from(["custom", "my_custom_name", "x2"]))
+        opts["params"].append(f"python-gapic-name={nm}")
+        opts["name"] = nm
+    elif extra == 1:
+        ns = draw(st.sampled_from(["alpha", "alpha.beta"]))
+        opts["params"].append(f"python-gapic-namespace={ns}")
+        opts["namespace"] = [ns]
+    elif extra == 2:
+        opts["params"].append("warehouse-package-name=acme-custom-dist")
+    elif extra == 3:
+        # service yaml with mixins (whole-API rule sets) -- the yaml-present half of the option space
+        from harness import conventional as CV
+        mix = [a for a in CV.MIXIN_RULES if draw(st.booleans())]
+        host = next((s.get("host") for f in api["files"] for s in f.get("services", [])), "lib.acme.com")
+        opts["service_yaml"] = {"type": "google.api.Service", "config_version": 3, "name": host, "apis": [{"name": a} for a in mix],
+                                "http": {"rules": [r for a in mix for r in CV.MIXIN_RULES[a]]}}
+    elif extra == 4:
+        opts["retry_config"] = draw(S.retry_configs(api))
+    elif extra == 5 and opts.get("transport") in ("grpc", None):
+        # the alternative (ads) template set with its legacy naming; snippets are switched off by the generator itself
+        opts["params"] += ["python-gapic-templates=ads-templates", "old-naming"]
+        opts["old_naming"] = True
+        opts["snippets"] = False
+        opts["ads"] = True
     return {"api": api, "options": opts}
 
 
@@ -60,6 +86,9 @@ def run_case(case, rec):
     for c in classes:
         rec.cls("shape:" + c)
     rec.cls("transport:" + options.get("transport", "grpc"))
+    for k in ("name", "namespace", "service_yaml", "retry_config", "ads"):
+        if options.get(k):
+            rec.cls("option:" + k)
     with common.scratch("c01") as d:
         res, req = G.generate_checked(api, options, d, rec, ID)
         static_checks(res, api, options)
